@@ -552,3 +552,25 @@
 ; ranges (cty.ValueRange)
 (define-fun vr_ty ((r cty.ValueRange)) cty.Type (cty.ValueRange.ty r))
 (define-fun vr_raw ((r cty.ValueRange)) Any (cty.ValueRange.raw r))
+
+; ---- refinement builder (C05): content-level predicates (the builder's work-in-progress object is mutable,
+; ---- so these take the object content, read from the current heap by the contracts) -----------------
+(define-fun rn_null ((r cty.refinementNumber)) Int (cty.refinementNullable.isNull (cty.refinementNumber.refinementNullable r)))
+(define-fun rc_null ((r cty.refinementCollection)) Int (cty.refinementNullable.isNull (cty.refinementCollection.refinementNullable r)))
+(define-fun rs_null ((r cty.refinementString)) Int (cty.refinementNullable.isNull (cty.refinementString.refinementNullable r)))
+(define-fun rn_ok ((r cty.refinementNumber)) Bool (and (bound_ok (cty.refinementNumber.min r)) (bound_ok (cty.refinementNumber.max r)) (tri_ok (rn_null r))))
+(define-fun rc_ok ((r cty.refinementCollection)) Bool (and (<= 0 (cty.refinementCollection.minLen r)) (<= (cty.refinementCollection.minLen r) (cty.refinementCollection.maxLen r)) (tri_ok (rc_null r))))
+(define-fun b_marks ((b Int)) Int (cty.RefinementBuilder.marks (select F.cty.RefinementBuilder b)))
+; the kind of refinement object Refine() starts from for an unrefined value of type t (0: none)
+(define-fun rfn_kind_for ((t cty.Type)) Int
+  (ite (is_number_ty t) 1 (ite (is_string_ty t) 2 (ite (is_coll_ty t) 3
+  (ite (or (is_bool_ty t) (is_obj_ty t) (is_tuple_ty t) (is_capsule_ty t)) 4 0)))))
+; length of a collection value as reported by Value.Length (uninterpreted; Length is not under contract yet)
+(declare-fun len_val (cty.Value) cty.Value)
+; equality of two known numbers as computed by rawNumberEqual (whole numbers exactly, others by their
+; shortest decimal text): uninterpreted except on whole numbers that fit int64
+(declare-fun num_eq (cty.Value cty.Value) Bool)
+(assert (forall ((a cty.Value) (b cty.Value)) (! (=> (and (= (bf.acc64 (bf_of a)) 0) (= (bf.acc64 (bf_of b)) 0)) (= (num_eq a b) (= (bf.int64 (bf_of a)) (bf.int64 (bf_of b))))) :pattern ((num_eq a b)))))
+; "num_eq decides numeric equality for these two numbers" (true for whole numbers; for others it depends on
+; the decimal text of math/big and is an explicit hypothesis where needed)
+(define-fun eq_exact ((a cty.Value) (b cty.Value)) Bool (= (num_eq a b) (and (= (num_i a) (num_i b)) (=> (= (num_i a) 0) (= (num_r a) (num_r b))))))
